@@ -147,6 +147,18 @@ CLAIMED.update({
         'note': READ_NOTE + 'Coarse-fragment annotations pass through the atomistic dialect (finding S3, not claimed).',
         'design': '§7 C14',
     },
+    'C15': {
+        'text': ('Lean 4 for every molecule: each stored cis/trans annotation is a path substituent-atom=atom-substituent over '
+                 'an order-2 bond of the returned molecule (C15_refs), a node stores exactly the annotations starting at it, '
+                 'the slash marks are removed and nothing else changes, chirality labels sit on the copy of the atom they were '
+                 'written on and the renumbering keeps the order inside a fragment; the class is the geometric one whenever the '
+                 'second substituent follows its atom (C15_ez_geometric) and the opposite otherwise (C15_ez_E1 = finding E1). '
+                 'Tied to the code by exact correspondence of the whole resolution incl. the annotation tuples on generated '
+                 'stereo molecules cut at double/single bonds in every fragment order, plus a geometric ground-truth oracle.'),
+        'note': ('partial: independence of the class from the fragment order is false today (known finding E1, witness theorem '
+                 'C15_E1_witness); pysmiles token table modelled external; `@`-style rs_isomer tuples are outside the property.'),
+        'design': '§7 C15',
+    },
     'C20': {
         'text': ('Lean 4: an entry with two "=" anywhere makes the annotation a SyntaxError; surplus positional / duplicated '
                  'argument -> SyntaxError; non-numeric reserved value -> TypeError; any exception of the loop body is what '
